@@ -4,7 +4,7 @@ manifest can never drift from what ./run supports)."""
 import json, subprocess, os
 
 HOOK_COMMITS = ["61b94ce", "8f421be"]
-FIX_COMMITS = ["a51fb22", "b0c8ea5", "98c1f4b", "e663d4c", "32aebe9", "fc86303", "229945c", "8af08bf", "0c3e286", "bea63fc"]
+FIX_COMMITS = ["a51fb22", "b0c8ea5", "98c1f4b", "e663d4c", "32aebe9", "fc86303", "229945c", "8af08bf", "4e6926f", "9fa7532", "bf2b0b5", "e42a3ea", "0c3e286", "bea63fc"]
 
 # id -> (engine, category, technique, text, note, design_ref)
 CHECKS = {}
@@ -89,6 +89,22 @@ add("C13", "X", "model_checking",
     "Every reachable state within budgets (ticks, drops, duplications, acknowledgements) of the real sender/receiver pair; worlds contain ordinal items, two UUID types of different sizes and a multi-part snapshot; accepted snapshots are compared with the sender's world through items() and item(type,id); errors must not move the acknowledged tick to that tick; panics are violations (one recorded known finding).",
     "Trusted: stateright search; state key = history hash of each real object (over-fine, cannot hide states).",
     "DESIGN.md 3/C13")
+
+add("C15", "E", "exploration",
+    "bounded exhaustive enumeration of chunk sequences (raw level) and world histories (typed level), written by the real writers into memory and read back by the real readers",
+    "All raw chunk sequences up to depth 3/4 over ticks on both sides of the inline-delta limit, key frames, payloads with compressed sizes around 29/30 and 255/256, padded messages; every payload size family incl. the largest representable; all header string lengths; all typed world histories up to depth 4/5 over 5 object sets (ordinal + two UUID-typed sizes) x tick steps {+1,+250,+251} x non-increasing ticks.",
+    "Trusted: round trip through the library's own reader is the property; one recorded known finding (UUID type number reuse across consecutive snapshots panics in Delta::create).",
+    "DESIGN.md 3/C15")
+add("C16", "E", "exploration",
+    "bounded exhaustive enumeration of file corruptions produced from an independent datafile writer; every accessor traversed after opening",
+    "A family of ~300 well-formed v3/v4 files from an independent writer must be returned exactly (raw reader with in-memory callbacks and file reader via memfd); every header/table/offset/size/item word set to ~20 boundary values, consistent unaligned item resizes, truncation at every byte, data byte flips; a hand-built valid map with every item word set to 18 boundary values and data blocks resized; all datafile and map accessors are called on whatever opens.",
+    "Trusted: independent writer transcribed from doc/datafile.md; zlib via the repository's own binding; sanitizer run of the same enumerator is part of C19's thorough tier.",
+    "DESIGN.md 3/C16")
+add("C17", "E", "exploration",
+    "bounded exhaustive enumeration of server histories x read fragmentations (schedules of read sizes chosen by the harness through the cfg hook)",
+    "All valid histories up to depth 4/5 over an 18-message alphabet, each decoded under every 1/2-piece fragmentation, byte-by-byte, zero-length reads at every position and header cuts; items must be identical and match a reference decoding (nesting, strictly increasing ticks equal to the doc pseudo-code, running sums); truncations and byte substitutions give value-or-error independent of fragmentation; long streams around the 8192-byte buffer boundary.",
+    "Trusted: independent encoder and tick/position reference from doc/teehistorian.md; cfg(libtw2_verif) re-export of the incremental reader.",
+    "DESIGN.md 3/C17")
 
 NOT_YET = {}
 
